@@ -88,6 +88,9 @@ def check (inTx : Bool) (op : Op) (now : Int) (pre post : DB) (res : Out) : Opti
   | .keyDeleteAll =>
     -- documented: "Should not be run inside a database transaction" (VACUUM fails there)
     if inTx then none else some (outEq res r.out && decide (s' = r.st))
+  | .keyRandom none =>
+    -- the implementation reported "no key" (or failed): right exactly when no key is live
+    some (outEq res (.error .notFound) && s.isEmpty && decide (s' = s))
   | .keyDeleteExpired _ =>
     -- the cleaner may only remove keys that no longer exist: the keyspace is unchanged
     some (decide (s' = s) && !isErr res)
